@@ -166,6 +166,15 @@ func scopesValid(thorough bool) []Scope {
 		Scope{Name: "R-holes-2:WebMercatorQuad-z17", GS: realGS("WebMercatorQuad", 17, 2, 550000.1, 6800000.2), Spec: lat.Spec{Points: lat.Window(2, 2, 2), MaxK: 4, Valid: true, MaxHoles: 1, HoleMaxK: 3}, IDSets: [][]int{{17}}, Cfgs: keepCfgs},
 		Scope{Name: "R-multi:NetherlandsRDNewQuad-z12-14", GS: realGS("NetherlandsRDNewQuad", 14, 2, 20000.3, 380000.7), Spec: lat.Spec{Points: scale(lat.Window(2, 2, 2), 4), MaxK: k(3, 4), Valid: true}, IDSets: [][]int{{12, 13, 14}, {14}, {12, 14}}, Cfgs: keepCfgs},
 	)
+	// placements: the same small searches at the origin and at the far corner of the grid (the scopes above sit around the
+	// root centre): pixel address 0, the last pixel address, Z-order keys shared between levels, borders of the extent
+	scs = append(scs,
+		Scope{Name: "L-half-2@origin", GS: synthGS(0, 2, [2]int64{0, 0}), Spec: lat.Spec{Points: lat.Window(2, 2, 2), MaxK: 4, Valid: true}, IDSets: one, Cfgs: keepCfgs},
+		Scope{Name: "L-half-2@far-corner", GS: synthGS(0, 2, [2]int64{14, 14}), Spec: lat.Spec{Points: below(lat.Window(2, 2, 2), 4), MaxK: 4, Valid: true}, IDSets: one, Cfgs: keepCfgs},
+		Scope{Name: "L-multi@origin", GS: synthGS(2, 2, [2]int64{0, 0}), Spec: lat.Spec{Points: scale(lat.Window(2, 2, 2), 4), MaxK: k(3, 4), Valid: true}, IDSets: subsetsOf([]int{0, 1, 2}), Cfgs: keepCfgs},
+		Scope{Name: "L-multi@far-corner", GS: synthGS(2, 2, [2]int64{56, 56}), Spec: lat.Spec{Points: below(scale(lat.Window(2, 2, 2), 4), 16), MaxK: k(3, 4), Valid: true}, IDSets: subsetsOf([]int{0, 1, 2}), Cfgs: keepCfgs},
+		Scope{Name: "R-half-2:WebMercatorQuad-z20", GS: realGS("WebMercatorQuad", 20, 2, 550000.1, 6800000.2), Spec: lat.Spec{Points: lat.Window(2, 2, 2), MaxK: k(3, 4), Valid: true}, IDSets: [][]int{{20}}, Cfgs: keepCfgs},
+	)
 	// families of larger polygons (pinched necks with holes, lake + ditch, C-shapes): see families.go
 	scs = append(scs, familyScopes(thorough)...)
 	if thorough {
@@ -195,6 +204,17 @@ func scopesC01(thorough bool) []Scope {
 	// Z-order key, different level) both lie inside the window: whatever is keyed by a pixel address alone
 	scs = append(scs, Scope{Name: "L-centres-4-origin-multi", GS: synthGS(1, 2, [2]int64{0, 0}), Spec: lat.Spec{Points: lat.Centres(4, 4), MaxK: 5, Valid: true}, IDSets: [][]int{{0, 1}, {1, 0}}, Cfgs: []snap.Config{{}}})
 	return scs
+}
+
+// below keeps the lattice points whose coordinates are both below max (a window that ends on the exclusive border of the extent)
+func below(pts []ref.P, max int64) []ref.P {
+	var out []ref.P
+	for _, p := range pts {
+		if p[0] < max && p[1] < max {
+			out = append(out, p)
+		}
+	}
+	return out
 }
 
 // scale multiplies lattice points (used to put a coarse window on a finer grid)
